@@ -47,6 +47,9 @@ CLASSES = {
     "ast.Call#help": {"func": "obj:ast.Attribute#dotted", "args": "list1[union[obj:AnyNode|obj:ast.Attribute#of]]", "keywords": "list0", "starargs": "none", "kwargs": "none",
                       "lineno": "int", "col_offset": "int", "end_lineno": "int", "end_col_offset": "int"},
     "AnyNode": {},
+    # string builders: the two fields that carry a pending `p` prefix from handle_fstring to concatenate_strings
+    "ast.JoinedStr": {"values": "abslist[obj:StrPart]", "lineno": "int", "col_offset": "int", "end_lineno": "int", "end_col_offset": "int"},
+    "ast.Constant#lit": {"value": "lit", "kind?": "str", "lineno": "int", "col_offset": "int", "end_lineno": "int", "end_col_offset": "int"},
     "ast.Tuple": {"elts": "const:opaque-list", "lineno": "int", "col_offset": "int", "end_lineno": "int", "end_col_offset": "int"},
     "SyntaxError": {"msg": "str", "filename": "str", "lineno": "int", "offset": "int", "text": "str", "end_lineno": "int", "end_offset": "int",
                     "bare": "bool", "nargs": "int"},
@@ -216,6 +219,8 @@ def sf_lit_fold(ex, st, parts, n):
 
 def sf_has_field(ex, st, o, name):
     nm = z3.simplify(lift(name)).as_string()
+    if isinstance(o, PyObj) and ("?" + nm) in o.fields:
+        return o.fields["?" + nm]          # an object known by its shape only: whether it has the attribute is a ghost of the shape
     return z3.BoolVal(isinstance(o, PyObj) and nm in o.fields)
 
 
@@ -452,6 +457,9 @@ def sf_lines_left(ex, st, rl):
 
 
 def sf_node_wf(ex, st, n):
+    from engine.pyvals import PyUnion
+    if isinstance(n, PyUnion):
+        return z3.And([z3.Implies(n.kind == k, sf_node_wf(ex, st, a)) for k, a in enumerate(n.alts)])
     if is_tok(n):
         return _tok_wf(n)
     f = n.fields
@@ -466,6 +474,27 @@ def sf_wf_error(ex, st, e, parser):
         return z3.BoolVal(False)          # a bare SyntaxError(msg): no file name, no position
     return z3.And(z3.Not(f["bare"]), f["nargs"] == 6, f["filename"] == parser.fields["filename"], f["lineno"] >= 1, f["offset"] >= 1,
                   z3.Or(f["end_lineno"] > f["lineno"], z3.And(f["end_lineno"] == f["lineno"], f["end_offset"] >= f["offset"])))
+
+
+def _quote_index(s):
+    a, b = z3.IndexOf(s, z3.StringVal("'"), 0), z3.IndexOf(s, z3.StringVal('"'), 0)
+    return z3.If(a < 0, b, z3.If(b < 0, a, z3.If(a <= b, a, b)))
+
+
+def sf_has_p_prefix(ex, st, s):
+    """the literal's prefix (what precedes its opening quote, the first quote character of either kind) contains a p, in any case"""
+    from engine.pyvc import str_lower
+    s = lift(s)
+    q = _quote_index(s)
+    return z3.And(q > 0, z3.Contains(str_lower(z3.SubString(s, 0, q)), z3.StringVal("p")))
+
+
+def sf_strip_p(ex, st, s):
+    """the same literal without that p: prefix case-folded, its first p removed, the rest (from the opening quote on) untouched"""
+    from engine.pyvc import str_lower
+    s = lift(s)
+    q = _quote_index(s)
+    return z3.Concat(z3.Replace(str_lower(z3.SubString(s, 0, q)), z3.StringVal("p"), z3.StringVal("")), z3.SubString(s, q, z3.Length(s) - q))
 
 
 def _piece_pos(v, which):
@@ -562,7 +591,20 @@ def sf_node_end(ex, st, n):
     return PyTuple([_pos_field(n, "end_lineno"), _pos_field(n, "end_col_offset")])
 
 
-SPEC_FUNCS = {"runs": sf_runs, "run_begin": sf_run_begin, "brk": sf_brk, "yield_at": sf_yield_at, "node_id": sf_node_id, "lines_ok": sf_lines_ok, "node_start": sf_node_start, "node_end": sf_node_end, "node_wf": sf_node_wf, "wf_error": sf_wf_error, "tok_wf": sf_tok_wf, "toks_wf": sf_toks_wf, "lines_left": sf_lines_left, "indent_col": sf_indent_col, "indents_wf": sf_indents_wf, "is_blank_char": sf_is_blank_char, "last": sf_last, "lr_cache_ok": sf_lr_cache_ok, "cache_ok": sf_cache_ok, "cache_has": sf_cache_has, "cache_end": sf_cache_end, "cache_tree": sf_cache_tree, "em_cached": sf_em_cached, "tk_ok": sf_tk_ok, "can_peek": sf_can_peek, "layout": sf_layout, "cache_wf": sf_cache_wf, "truthy": sf_truthy, "is_none": sf_is_none, "pos_le": sf_pos_le,
+CLASSES["Parser#strings"] = {**CLASSES["Parser"], "_path_token": "optv[Tok]", "_path_owner": "optv[obj:ast.JoinedStr]"}
+# an element of `values` known by shape only: a Constant (merged plain literals, text of an f-string) or some other node (a replacement field)
+CLASSES["StrPart"] = {"is:ast.Constant?": "bool", "value": "lit", "lineno": "int", "col_offset": "int", "end_lineno": "int", "end_col_offset": "int"}
+
+
+def sf_tok_of(ex, st, x):
+    """the token a (token | node) value is, when it is one (unspecified otherwise: use under isinstance(x, TokenInfo))"""
+    from engine.pyvals import PyUnion
+    if isinstance(x, PyUnion):
+        return next(a for a in x.alts if is_tok(a))
+    return x
+
+
+SPEC_FUNCS = {"tok_of": sf_tok_of, "has_p_prefix": sf_has_p_prefix, "strip_p": sf_strip_p, "runs": sf_runs, "run_begin": sf_run_begin, "brk": sf_brk, "yield_at": sf_yield_at, "node_id": sf_node_id, "lines_ok": sf_lines_ok, "node_start": sf_node_start, "node_end": sf_node_end, "node_wf": sf_node_wf, "wf_error": sf_wf_error, "tok_wf": sf_tok_wf, "toks_wf": sf_toks_wf, "lines_left": sf_lines_left, "indent_col": sf_indent_col, "indents_wf": sf_indents_wf, "is_blank_char": sf_is_blank_char, "last": sf_last, "lr_cache_ok": sf_lr_cache_ok, "cache_ok": sf_cache_ok, "cache_has": sf_cache_has, "cache_end": sf_cache_end, "cache_tree": sf_cache_tree, "em_cached": sf_em_cached, "tk_ok": sf_tk_ok, "can_peek": sf_can_peek, "layout": sf_layout, "cache_wf": sf_cache_wf, "truthy": sf_truthy, "is_none": sf_is_none, "pos_le": sf_pos_le,
               "endmarker_last": sf_endmarker_last, "endmarker_pulled": sf_endmarker_pulled, "gen_pos": sf_gen_pos,
               "gen_len": sf_gen_len, "gen_cat": sf_gen_cat, "gen_count": sf_gen_count, "le_isbytes": sf_le_isbytes, "lit_isbytes": sf_lit_isbytes, "lit_val": sf_lit_val,
               "lit_fold": sf_lit_fold, "has_field": sf_has_field, "is_translation": sf_is_translation, "all_located": sf_all_located, "mode_kind_of": sf_mode_kind_of, "mode_level_of": sf_mode_level_of, "pat_kind": sf_pat_kind, "same_frame": sf_same_frame, "pat_q": sf_pat_q, "gen_item": sf_gen_item, "prefix_of": sf_prefix_of, "tok_type": sf_tok_type}
